@@ -370,8 +370,12 @@ def _check_special(case):
     # reStructuredText directives whose body is re-wrapped by pydoctor (versionadded / versionchanged / deprecated) and an admonition
     direc = (pad + 'def changed(a):\n    """\n    Function.\n\n    .. versionchanged:: 1.2\n\n       The argument is now `missing_dir_first`,\n       on two lines.\n\n'
              '       Second paragraph `missing_dir_second`.\n\n    .. note::\n\n       An admonition `missing_dir_note`.\n\n    .. deprecated:: 2.0\n        Use `missing_dir_dep` instead.\n    """\n')
+    # a consolidated field written as a definition list (one item per parameter): a problem in a later item is reported at that item
+    consol = (pad + 'class KC:\n    "doc"\n    def f(self, alpha, beta):\n        """\n        Summary of f.\n\n        :Parameters:\n            `alpha`\n                the first one,\n'
+              '                on two lines\n            `beta`\n                the second one\n            `gamma_ghost`\n                not a parameter of f\n'
+              '            `delta_ghost`\n                not a parameter either\n\n        :returns: nothing\n        """\n')
     files = {'__init__.py': '', 'props.py': props, 'base.py': base, 'derived.py': derived, 'user.py': user, 'odd.py': odd,
-             **({} if ep else {'direc.py': direc}),
+             **({} if ep else {'direc.py': direc, 'consol.py': consol}),
              'one.py': 'class Gadget:\n    "doc"\n', 'two.py': 'class Gadget:\n    "doc"\n'}
     d = tempfile.mkdtemp(prefix='c16.', dir='/var/tmp')
     try:
@@ -413,6 +417,8 @@ def _check_special(case):
             expect('missing_dir_second', 'direc.py', direc, 'missing_dir_second', 'versionchanged second paragraph')
             expect('missing_dir_note', 'direc.py', direc, 'missing_dir_note', 'note')
             expect('missing_dir_dep', 'direc.py', direc, 'missing_dir_dep', 'deprecated')
+            expect('"gamma_ghost"', 'consol.py', consol, '`gamma_ghost`', 'consolidated field, third item')
+            expect('"delta_ghost"', 'consol.py', consol, '`delta_ghost`', 'consolidated field, fourth item')
         if ep:      # (docutils counts these characters as line ends itself)
             expect('missing_after_breaks', 'odd.py', odd, 'missing_after_breaks', 'after line separator characters')
             expect('otherfield', 'odd.py', odd, 'otherfield', 'field after line separator characters')
